@@ -7,8 +7,10 @@ from props import base
 from props.base import Context  # noqa: F401
 
 PID = 'C14'
-TIE_MODULES = ['DiffxVerif.Tie.Hunks', 'DiffxVerif.Tie.RegexHunks']
-NEEDS = ['hunks', 're_hunks']
+TIE_MODULES = ['DiffxVerif.Tie.Hunks']
+NEEDS = ['hunks']
+# a change of these pattern tables makes the check search with its escalated budget (no obligation)
+SOFT_PATTERNS = ['re_hunks']
 ASSUMPTIONS = [
     "CPython's re engine is environment: the hunk-header regex is re-expressed as Diffx.Hunks.matchHeader and validated against re on every run (exhaustive line lists over a 14-line alphabet + structured random)",
     'Python int() digit limit (4300) is modelled as Diffx.Hunks.maxIntDigits',
@@ -119,12 +121,14 @@ class Spec(object):
             ig = rng.random() < 0.6
             nh = rng.choice([1, 1, 2, 3, 5])
             lines = []
+            body_idx = set()
             exp_h = []
             dels = ins = 0
             for _h in range(nh):
                 if ig:
                     lines += [rng.choice(GARBAGE) for _g in range(rng.choice([0, 0, 1, 3]))]
                 hl, e, d, i = gen_hunk(rng)
+                body_idx.update(range(len(lines) + 1, len(lines) + len(hl)))
                 lines += hl
                 exp_h.append(e)
                 dels += d
@@ -152,13 +156,32 @@ class Spec(object):
                 elif op == 'dup':
                     dl.insert(k, dl[k])
                 elif op == 'bad':
-                    dl.insert(k, rng.choice([b'garbage', b'', b'\\ No newline', b'@@ what']))
+                    g = rng.choice([b'garbage', b'', b'\\ No newline', b'@@ what'])
+                    dl.insert(k, g)
+                    if k in body_idx:
+                        # inserted in front of a body line: the hunk is still open there
+                        yield {'lines': dl, 'ig': ig, 'expect': None,
+                               'must_raise': 'a line that is not context / insert / delete / marker stands inside a hunk',
+                               'must_name': k + 1}
+                        continue
                 elif op == 'hdr':
                     dl.insert(k, b'@@ -1 +1 @@')
                 elif op == 'trunc':
                     dl = dl[:k]
                 else:
-                    dl[k] = rng.choice([b'-', b'+', b' ']) + dl[k][1:]
+                    new = rng.choice([b'-', b'+', b' '])
+                    e = k
+                    while e + 1 in body_idx:
+                        e += 1
+                    nxt = dl[e + 1] if e + 1 < len(dl) else None
+                    # (only when what follows the hunk cannot be taken for a body line)
+                    if k in body_idx and {dl[k][:1], new} == {b'-', b'+'} and (nxt is None or nxt.startswith(b'@@ -')):
+                        # a deleted line turned into an inserted one (or the reverse) inside a hunk:
+                        # one side now ends a line early, which the parser has to report
+                        dl[k] = new + dl[k][1:]
+                        yield {'lines': dl, 'ig': ig, 'expect': None, 'must_raise': 'a -/+ line of a hunk was flipped: one side ends early'}
+                        continue
+                    dl[k] = new + dl[k][1:]
                 yield {'lines': dl, 'ig': ig, 'expect': None}
         for _ in range(nrand):
             n = rng.randint(0, 12)
@@ -201,6 +224,8 @@ class Spec(object):
         if kind == 'exc':
             bad.append('exception %s escapes: %s' % (type(r).__name__, r))
         elif kind == 'mal':
+            if case.get('must_name') and r.line_num != case['must_name']:
+                bad.append('MalformedHunkError names line %r, the offending line is %d' % (r.line_num, case['must_name']))
             if not (1 <= r.line_num <= len(lines)) or lines[r.line_num - 1] != r.line:
                 bad.append('MalformedHunkError does not name a line of the input (line_num=%r)' % r.line_num)
             elif str(r.line_num) not in str(r):
@@ -208,6 +233,8 @@ class Spec(object):
             if case['expect'] is not None:
                 bad.append('well-formed hunk sequence rejected: %s' % r)
         else:
+            if case.get('must_raise'):
+                bad.append('accepted although %s (no MalformedHunkError)' % case['must_raise'])
             if case['expect'] is not None and r != case['expect']:
                 bad.append('geometry differs from the construction: got %r expected %r' % (r, case['expect']))
             if not (0 <= r['num_processed_lines'] <= len(lines)):
